@@ -18,7 +18,7 @@ def queries(tier, kfs):
         qs.append(Query('iter.l%d.r%d.f%d.d%d' % (l, r, f, d), 'iter.cpp', 'c17_iter.c', dict(FSV_N=4), dict(N=4, LEFT=l, RIGHT=r, FILTER=f, DIR=d, BASE=0),
                         unwind=16, solver='cadical', diff=0, bounds=dict(unit='node iteration', left=l, right=r, filter=f, reverse=d), **kw))
     # routers (symbolic elevations)
-    for (n, bl, mk, thr) in ((4, 0b1001, None, 0), (4, 0b0100, 0b0010, 3), (3, 0, None, 2)):
+    for (n, bl, mk, thr) in ((4, 0b1001, None, 0), (4, 0b0100, 0b0010, 3), (3, 0, None, 2), (3, 0b001, None, 4)):   # last: fewer nodes than workers
         hd = dict(N=n, D=2, GRID=0, BLMASK=bl, USE_MASK=0 if mk is None else 1, SPACING='3.0', THREADS=thr)
         if mk is not None:
             hd['MASKBITS'] = mk
